@@ -43,6 +43,18 @@ func (s *starter) proposals() []netsim.Proposal {
 	return out
 }
 
+// drop removes a start that has not happened yet.
+func (s *starter) drop(key string) {
+	var keep []*pendingStart
+	for _, p := range s.pend {
+		if p.Key == key && p.Call == nil {
+			continue
+		}
+		keep = append(keep, p)
+	}
+	s.pend = keep
+}
+
 func (s *starter) allStarted() bool {
 	for _, p := range s.pend {
 		if p.Call == nil {
